@@ -3,8 +3,11 @@ module github.com/meshplus/bitxhub/verifharness
 go 1.14
 
 require (
+	github.com/cbergoon/merkletree v0.2.0
 	github.com/meshplus/bitxhub v0.0.0
+	github.com/meshplus/bitxhub-core v1.28.1-0.20230411032641-11245b4adfc5
 	github.com/meshplus/bitxhub-kit v1.28.0
+	github.com/meshplus/bitxhub-model v1.28.1-0.20230411032618-24ca54eec606
 	github.com/meshplus/eth-kit v1.28.0
 	github.com/meshplus/go-libp2p-cert v1.28.0
 	github.com/sirupsen/logrus v1.8.1
